@@ -25,6 +25,7 @@ type ModLoc struct {
 	Cap      bool // x[..cap] : the whole capacity window
 	Tail     bool // x[len..cap] : only the spare capacity
 	Whole    bool // x[*]  : every cell of the backing array of slice x (in-place append writes beyond len)
+	DelOnly  bool // m[-]  : entries of map m may be deleted; no entry is added or changed
 	E        Expr
 	Text     string
 	Ghost    string
@@ -60,12 +61,15 @@ type FuncSpec struct {
 	Fresh      bool // result is freshly allocated
 	Opaque     bool // do not verify the body (listed as assumption)
 	BV         bool
+	Modes map[string]bool // proof-search options of this function's VC (`mode <name>`)
 	Unroll     map[int]int
 	MayPanic   bool // explicit panics are not obligations here (documented rejection)
+	NoPanicWhen []Clause // `nopanic when E` (ext_nopanic.go): under E (entry state) no explicit or propagated panic is reachable
 	Lockset    string // `lockset <field>`: syntactic check that the method runs under receiver.<field> (see lockset.go)
 	Ghosts     []GhostVar    // auxiliary integer variables of the function (initialised at entry)
 	GhostUpds  []*GhostUpd   // assignments to them, anchored at a source line of the function body
 	Unreachable map[string]bool // cover names (return@<block>) that must be PROVED unreachable instead of probed for reachability
+	Uses       map[string]bool // `uses entryclosure, blockframe`: opt-in heap facts for the verification of this function (ext_crypto.go)
 }
 
 // GhostVar / GhostUpd: auxiliary (ghost) integer variables. They never influence the program, so adding them is sound;
@@ -91,6 +95,7 @@ type SpecFn struct {
 	Text   string
 	Uninterp bool
 	Rec      bool // recursive over its last (integer) parameter: n <= 0 ? base : f(..., n-1)
+	Reads    []string // uninterp only: leaf types whose heap components are implicit arguments (`reads byte, uint64, *Key`)
 }
 
 type Lemma struct {
@@ -129,7 +134,7 @@ func loadContracts(files []string) (*Contracts, error) {
 	return cs, nil
 }
 
-var clauseKeywords = []string{"rec", "trustpre", "noframe", "lockset", "assumes", "hint", "func", "assume", "spec", "lemma", "requires", "ensures", "panics", "modifies", "reads", "pure", "loop", "property", "inline", "noinline", "fresh", "opaque", "axiom", "package", "uninterp", "maypanic", "expectfail", "mode", "unroll", "unreachable", "ghost", "at"}
+var clauseKeywords = []string{"rec", "trustpre", "noframe", "lockset", "assumes", "hint", "func", "assume", "spec", "lemma", "requires", "ensures", "panics", "modifies", "reads", "pure", "loop", "property", "inline", "noinline", "fresh", "opaque", "axiom", "package", "uninterp", "maypanic", "expectfail", "mode", "unroll", "unreachable", "ghost", "at", "uses", "nopanic"}
 
 func startsClause(s string) bool {
 	for _, k := range clauseKeywords {
@@ -265,7 +270,7 @@ func (cs *Contracts) loadFile(path string) error {
 			sf.Params = bs
 			tail := strings.TrimSpace(rest[j+1:])
 			if word == "uninterp" {
-				sf.Ret = tail
+				sf.Ret, sf.Reads = splitReads(tail) // `uninterp F(..) T reads byte, uint64` (ext_crypto.go)
 			} else {
 				k := strings.Index(tail, "=")
 				if k < 0 {
@@ -381,6 +386,13 @@ func (cs *Contracts) loadFile(path string) error {
 						return fail(err)
 					}
 					cur.Modifies = append(cur.Modifies, ModLoc{Contents: true, Cap: true, E: e, Text: part})
+				case strings.HasSuffix(part, "[-]"):
+					// m[-]: entries of map m may be DELETED, none is added or changed (ext_maprange.go)
+					e, err := parseExpr(part[:len(part)-3])
+					if err != nil {
+						return fail(err)
+					}
+					cur.Modifies = append(cur.Modifies, ModLoc{Contents: true, DelOnly: true, E: e, Text: part})
 				case strings.HasSuffix(part, "[*]"):
 					e, err := parseExpr(part[:len(part)-3])
 					if err != nil {
@@ -428,6 +440,17 @@ func (cs *Contracts) loadFile(path string) error {
 			if cur != nil {
 				cur.MayPanic = true
 			}
+		case "nopanic":
+			// nopanic when E (ext_nopanic.go)
+			if cur == nil {
+				return fail(fmt.Errorf("nopanic outside func"))
+			}
+			rest = strings.TrimSpace(strings.TrimPrefix(rest, "when"))
+			cl, err := mkClause(rest, src)
+			if err != nil {
+				return fail(err)
+			}
+			cur.NoPanicWhen = append(cur.NoPanicWhen, cl)
 		case "ghost":
 			// ghost NAME = INIT
 			if cur == nil {
@@ -477,9 +500,37 @@ func (cs *Contracts) loadFile(path string) error {
 			if cur != nil {
 				cur.Lockset = rest
 			}
+		case "uses":
+			// uses entryclosure, blockframe: opt-in facts assumed while verifying THIS function (see ext_crypto.go)
+			// uses L1, L2 (lemma names; on a lemma or a function): closures of lemmas proved in the same check (ext_induct.go).
+			// Both kinds may be mixed in one clause: fact names are taken here, every other name is a lemma name.
+			var lemmaNames []string
+			for _, f := range strings.FieldsFunc(rest, func(r rune) bool { return r == ',' || r == ' ' || r == '\t' }) {
+				if f == "entryclosure" || f == "blockframe" || f == "readsframe" {
+					if cur == nil {
+						return fail(fmt.Errorf("uses %s outside func", f))
+					}
+					if cur.Uses == nil {
+						cur.Uses = map[string]bool{}
+					}
+					cur.Uses[f] = true
+					continue
+				}
+				lemmaNames = append(lemmaNames, f)
+			}
+			if len(lemmaNames) > 0 {
+				if _, err := extClause("uses", strings.Join(lemmaNames, ", "), pkg, cur, curLemma); err != nil {
+					return fail(err)
+				}
+			}
 		case "mode":
 			if cur != nil && rest == "bv64" {
 				cur.BV = true
+			} else if cur != nil {
+				if cur.Modes == nil {
+					cur.Modes = map[string]bool{}
+				}
+				cur.Modes[strings.TrimSpace(rest)] = true // e.g. `mode append-back` (ext_kviter.go)
 			}
 		case "unroll":
 			f := strings.Fields(rest)
@@ -557,6 +608,12 @@ func (cs *Contracts) loadFile(path string) error {
 				cur.Props = append(cur.Props, ps...)
 			}
 		default:
+			if ok, err := extClause(word, rest, pkg, cur, curLemma); ok { // ext_induct.go: induct, uses, pattern, recframe
+				if err != nil {
+					return fail(err)
+				}
+				continue
+			}
 			return fail(fmt.Errorf("unknown clause %q", word))
 		}
 	}
